@@ -1,4 +1,8 @@
 import MoThreads.Model.Sched
 import MoThreads.Model.SignalCore
+import MoThreads.Model.Monitor
 import MoThreads.Props.C01
 import MoThreads.Props.C02
+import MoThreads.Props.C05
+import MoThreads.Props.C06
+import MoThreads.Props.C20
